@@ -248,6 +248,12 @@ func (g *Gen) FreshBytes(hint string, n int) *Term {
 	if n >= 0 {
 		g.lens[v.Key()] = IntC(int64(n))
 		g.facts[v.Name] = []*Term{Eq(App("blen", SInt, v), IntC(int64(n)))}
+	} else {
+		// explicit length variable so that solver models expose the length of every symbolic byte string
+		l := Var(g.name(hint+"_len"), SInt)
+		g.lens[v.Key()] = l
+		g.facts[l.Name] = []*Term{Ge(l, IntC(0)), Lt(l, IntB(Pow2(62)))}
+		g.facts[v.Name] = []*Term{Eq(App("blen", SInt, v), l)}
 	}
 	return v
 }
